@@ -18,7 +18,8 @@ import filelock
 
 WATCHDOG = 15.0
 TOOL_ID = 4
-SHARED_PATTERNS = re.compile(r'\.exists\(\)|\.open\(|json\.load\(|json\.dump\(|computer\(\)|to_pickle\(|read_pickle\(|np\.save\(|np\.load\(')
+SHARED_PATTERNS = re.compile(r'\.exists\(\)|\.open\(|json\.load\(|json\.dump\(|computer\(\)|to_pickle\(|read_pickle\(|np\.save\(|np\.load\(|'
+                             r'unlink\(|\.rename\(|os\.replace\(|os\.remove\(|rmtree\(|\.touch\(|\.write_text\(|\.write_bytes\(|\.read_text\(|\.read_bytes\(')
 
 
 class Inconclusive(Exception):
@@ -159,6 +160,17 @@ class Controller:
 
 
 CURRENT = {'ctl': None}
+
+
+class GateStr(str):
+    """a string that passes a gate while it is being pickled: the scheduler can then run other callers in the MIDDLE of a pickle-based write
+    (file already opened and truncated, content not yet complete) although that write is a single statement of the cache code"""
+
+    def __reduce__(self):
+        ctl = CURRENT['ctl']
+        if ctl is not None and threading.get_ident() in ctl.threads:
+            ctl.gate('pickle:mid-write')
+        return (str, (str.__str__(self),))
 
 
 class GatedFileLock(filelock.FileLock):
